@@ -13,21 +13,25 @@
 (* every operation of the running-variance update), so the comparison is   *)
 (* bit for bit; with a non-zero mean it is to rounding of the inputs.      *)
 (* For the low-rank estimator the window must span the space (n >= d + 2). *)
+(* A window switch in the middle of the feed (foreground := background,    *)
+(* fresh background) must not change any of this: after it the foreground  *)
+(* still holds every draw, the background only the later ones.             *)
 (***************************************************************************)
 EXTENDS Integers, Sequences, TLC, Json
 
-CONSTANTS Dims, Sizes, Exps, Mus, Patterns, LowRankDims, Ranks
+CONSTANTS Dims, Sizes, Exps, Mus, Patterns, LowRankDims, Ranks,
+          Splits   \* a window switch after this many draws (0 = none): the estimate must not depend on it
 
 \* placement of draw j on coordinate i: pattern rotated by the coordinate index, scaled by i
 Z(pat, n, i, j) == pat[((j + i - 2) % Len(pat)) + 1] * (IF i % 2 = 0 THEN -1 ELSE 1) + (IF j = i THEN 1 ELSE 0)
 
 DiagCases ==
-    {[kind |-> "gauss_diag", d |-> d, n |-> n, e |-> e, mu |-> mu, pat |-> p,
+    {[kind |-> "gauss_diag", d |-> d, n |-> n, e |-> e, mu |-> mu, pat |-> p, split |-> sp,
       z |-> [j \in 1..n |-> [i \in 1..d |-> Z(p, n, i, j)]],
       \* the specification's answer: scale exponent per coordinate, mean per coordinate
       want_e |-> [i \in 1..d |-> e[((i - 1) % Len(e)) + 1]],
       want_mu |-> [i \in 1..d |-> mu[((i - 1) % Len(mu)) + 1]]] :
-        d \in Dims, n \in Sizes, e \in Exps, mu \in Mus, p \in Patterns}
+        d \in Dims, n \in Sizes, e \in Exps, mu \in Mus, p \in Patterns, sp \in Splits}
 
 \* at least three distinct draws, and no coordinate constant
 Usable(c) ==
